@@ -1,1 +1,119 @@
-// replay hooks for src/snapshot.rs (included as a child module `verif_replay` of that file)
+// Bounded-check driver for src/snapshot.rs (child module `verif_replay`).
+// C01: the registry of live snapshot horizons (what compaction consults) always covers every open
+// read transaction - also readers that share a start sequence, and readers that opened a range cursor.
+// Bound (stated): programs of <= 5 operations over up to 3 reader slots from {begin(slot), drop(slot),
+// commit_one_write, open+drop a range cursor on slot, get on slot}; after every step get_all_snapshots()
+// must be exactly the (deduplicated, ascending) start sequences of the open readers.
+use super::*;
+use crate::{LSMIterator as _, TreeBuilder};
+
+#[derive(Clone, Copy, Debug)]
+enum Op {
+	Begin(usize),
+	DropR(usize),
+	Write,
+	Cursor(usize),
+	Get(usize),
+}
+
+#[tokio::test(flavor = "multi_thread", worker_threads = 2)]
+async fn registry_enum() {
+	let mut alpha = Vec::new();
+	for s in 0..3 {
+		alpha.push(Op::Begin(s));
+		alpha.push(Op::DropR(s));
+		alpha.push(Op::Cursor(s));
+		alpha.push(Op::Get(s));
+	}
+	alpha.push(Op::Write);
+	let mut cases = 0u64;
+	let mut nontrivial = 0u64;
+	let mut failures: Vec<String> = Vec::new();
+	let mut samples: Vec<String> = Vec::new();
+	let dir = tempdir::TempDir::new("verif_c01").unwrap();
+	let tree = TreeBuilder::new().with_path(dir.path().to_path_buf()).build().unwrap();
+	let mut wcount = 0u64;
+	for len in 1..=5usize {
+		let total = alpha.len().pow(len as u32);
+		for code in 0..total {
+			let mut ops = Vec::new();
+			let mut x = code;
+			for _ in 0..len {
+				ops.push(alpha[x % alpha.len()]);
+				x /= alpha.len();
+			}
+			// skip programs that use a slot before beginning it (keeps the space meaningful)
+			let mut open = [false; 3];
+			let mut valid = true;
+			for op in &ops {
+				match *op {
+					Op::Begin(s) => { if open[s] { valid = false; } open[s] = true; }
+					Op::DropR(s) => { if !open[s] { valid = false; } open[s] = false; }
+					Op::Cursor(s) | Op::Get(s) => { if !open[s] { valid = false; } }
+					Op::Write => {}
+				}
+			}
+			if !valid {
+				continue;
+			}
+			cases += 1;
+			let mut readers: [Option<crate::Transaction>; 3] = [None, None, None];
+			let mut bad: Option<String> = None;
+			let mut shared = false;
+			for (i, op) in ops.iter().enumerate() {
+				match *op {
+					Op::Begin(s) => readers[s] = Some(tree.begin().unwrap()),
+					Op::DropR(s) => readers[s] = None,
+					Op::Write => {
+						wcount += 1;
+						let mut t = tree.begin().unwrap();
+						t.set(format!("w{wcount}").into_bytes(), b"v".to_vec()).unwrap();
+						t.commit().await.unwrap();
+						drop(t);
+					}
+					Op::Cursor(s) => {
+						let r = readers[s].as_ref().unwrap();
+						let mut it = r.range(b"a".to_vec(), b"z".to_vec()).unwrap();
+						let _ = it.seek_first();
+					}
+					Op::Get(s) => {
+						let _ = readers[s].as_ref().unwrap().get(b"w1".to_vec());
+					}
+				}
+				// contract: registrations == start sequences of the open readers (as multisets)
+				let mut want: Vec<u64> = readers.iter().flatten().map(|r| r.start_seq_num).collect();
+				want.sort();
+				let mut dedup = want.clone();
+				dedup.dedup();
+				if dedup.len() < want.len() {
+					shared = true;
+				}
+				// (only the tracker's public view is used, so the check does not depend on its representation)
+				let got_set = tree.core.inner.snapshot_tracker.get_all_snapshots();
+				if got_set != dedup && bad.is_none() {
+					bad = Some(format!("after op {i} ({:?}): open readers start at {:?}, but get_all_snapshots() = {:?}", op, want, got_set));
+				}
+			}
+			drop(readers);
+			if shared {
+				nontrivial += 1;
+				if samples.len() < 3 && len == 5 {
+					samples.push(format!("\"{:?}\"", ops));
+				}
+			}
+			if let Some(b) = bad {
+				if failures.len() < 5 {
+					failures.push(format!("{{\"program\":\"{:?}\",\"mismatch\":{:?}}}", ops, b));
+				}
+			}
+		}
+	}
+	println!(
+		"REPLAY-RESULT {{\"driver\":\"snapshot::registry_enum\",\"cases\":{},\"distinct_nontrivial\":{},\"samples\":[{}],\"failures\":[{}]}}",
+		cases,
+		nontrivial,
+		samples.join(","),
+		failures.join(",")
+	);
+	assert!(failures.is_empty());
+}
